@@ -186,7 +186,9 @@ CHECKS["C13"] = {
         {"name": "engine", "quick_n": 3000, "thorough_n": 60000, "oracles": ["api-panic", "process-crash"]},
     ],
     "explanation": "The engine object of facade.go is a state machine in the model (Model/Engine.lean: registrations, compiler choice, one-time appending of the built-ins at the first compilation, Callables that keep their compile-time environment and - for vm / closure - their function table). Proved over it: a compilation changes nothing but the one-time initialisation and an invocation changes nothing (init_idempotent, compile_state, invoke_state); in ANY history of compilations and invocations every output is the output of that call on the engine alone (history_independent, history_independent_fresh, recompiled_same); what registrations can and cannot change for Callables compiled earlier (early_binding_ignores_engine, callable_stable_under_append, with the kernel-checked witnesses registration_order_matters and late_binding_depends_on_compiler showing why the theorem is about histories without registrations); no output except through print (output_only_from_print(_dynamic), print_prints); the outcome depends on the bindings of the compile-time names only (invoke_depends_on_bound_names, extra_bindings_irrelevant). The model is a pure function of (source, environment): evaluation is determined (C06.determined), renderings and string() are invariant under any re-ordering of map entries at any depth (C13.texts_invariant, render_map_perm, stringify_map_perm, valEq_map_perm) and object rendering under field permutation (render_obj_perm); the only events are host calls and print lines. Tie: the engine stream plays random histories of API calls (RegisterFun incl. colliding keys, RegisterOperator, UseCompiler vm/closure/interp, UseBuiltIn, Compile, invocation of any Callable obtained so far) on ONE yae.Expr against Engine.run, output by output; the history stream plays random Compile/invoke sequences on ONE engine with shared environment objects (structs, *types.Env/*val.Env, maps), each invoke twice, against fresh engines with fresh copies, with stdout captured and host values deep-compared; the prints projection of the eval stream; a compiled expression re-entered from a host function while it is running (an interleaved invocation) must give the results of separate evaluations on every back end.",
-    "assumptions": ["string() of an object follows declaration order by design (kernel-checked example C13.stringify_obj_declaration_order); it is a function of the environment's contents, which include the field order"],
+    "assumptions": ["string() of an object follows declaration order by design (kernel-checked example C13.stringify_obj_declaration_order); it is a function of the environment's contents, which include the field order",
+                    "the history theorems quantify over histories of compilations and invocations; registrations are configuration a result does depend on (kernel-checked witnesses registration_order_matters, late_binding_depends_on_compiler), and the engine stream compares histories WITH registrations against the model",
+                    "not modelled: RegisterTranslator (user translators), the EnableDebug writer, function tables of the environments themselves; that the Go back ends write to neither environment map (aliasing) is covered by the history stream (shared environment objects, deep comparison of host values), not by a theorem; output_only_from_print is about the model's host behaviours, which cannot print - a real host function can do anything"],
 }
 
 CHECKS["C14"] = {
